@@ -917,6 +917,10 @@ func simC19Apply(c *Ctx) {
 					opts = []opt{{cty.IndexStep{Key: cty.NumberIntVal(int64(len(cur.Elems)))}, -1, false, "index one past the end"},
 						{cty.IndexStep{Key: cty.NumberIntVal(-1)}, -1, false, "negative index"},
 						{cty.IndexStep{Key: cty.NumberFloatVal(0.5)}, -1, false, "fractional index"},
+						{cty.IndexStep{Key: cty.MustParseNumberVal("0.0000000000000000000000000000000000001")}, -1, false, "index a hair above a whole number"},
+						{cty.IndexStep{Key: cty.MustParseNumberVal("0.99999999999999999999999999999999999999")}, -1, false, "index a hair below a whole number"},
+						{cty.IndexStep{Key: cty.MustParseNumberVal("1e-400")}, -1, false, "index too small for float64 to tell from zero"},
+						{cty.IndexStep{Key: cty.MustParseNumberVal("-1e-400")}, -1, false, "negative index too small for float64 to tell from zero"},
 						{cty.IndexStep{Key: cty.StringVal("0")}, -1, false, "string key into a sequence"},
 						{cty.GetAttrStep{Name: "a"}, -1, false, "attribute of a sequence"},
 						{cty.IndexStep{Key: cty.True}, -1, false, "bool key"}}
